@@ -429,6 +429,10 @@ class HyASTCompiler:
         for expr in exprs_iter:
 
             if is_unpack("mapping", expr):
+                if not (dict_display or with_kwargs):
+                    raise self._syntax_error(
+                        expr, "`unpack-mapping` is not allowed here"
+                    )
                 ret += self.compile(expr[1])
                 if dict_display:
                     compiled_exprs.append(None)
